@@ -184,6 +184,18 @@ class _Norm(ast.NodeTransformer):
                 new = ast.copy_location(ast.If(test=st.test, body=rest, orelse=st.orelse), st)
                 stmts = stmts[:k] + [self.visit_If_only(new)]
                 break
+        # N18: `try: ...; return X` / `except E: pass` followed by more statements: what follows only runs when E was caught,
+        # so it is the handler's body (the nested form of a chain of fallback attempts)
+        for k, st in enumerate(stmts[:-1]):
+            if isinstance(st, ast.Try) and st.body and isinstance(st.body[-1], (ast.Return, ast.Raise)) and not st.orelse and not st.finalbody \
+               and len(st.handlers) == 1 and st.handlers[0].name is None and \
+               all(isinstance(x, ast.Pass) or (isinstance(x, ast.Expr) and isinstance(x.value, ast.Constant)) for x in st.handlers[0].body):
+                h = st.handlers[0]
+                rest = self._block(stmts[k + 1:])
+                newh = ast.copy_location(ast.ExceptHandler(type=h.type, name=None, body=rest), h)
+                new = ast.copy_location(ast.Try(body=st.body, handlers=[newh], orelse=[], finalbody=[]), st)
+                stmts = stmts[:k] + [new]
+                break
         # N6: a temporary bound once to an expression and used once, as the first thing the next statement evaluates
         stmts = self._inline_temps(stmts)
         out = []
@@ -367,8 +379,9 @@ def _simple_elt(e):
     return False
 
 
-def _unroll_in(fn, class_tables=None):
+def _unroll_in(fn, class_tables=None, module_tables=None):
     class_tables = class_tables or {}
+    module_tables = module_tables or {}
     binds = {}
     for n in ast.walk(fn):
         if isinstance(n, ast.Assign):
@@ -384,6 +397,8 @@ def _unroll_in(fn, class_tables=None):
     def table(it):
         if isinstance(it, ast.Attribute) and isinstance(it.value, ast.Name) and it.value.id == 'self' and it.attr in class_tables:
             it = class_tables[it.attr]
+        if isinstance(it, ast.Name) and it.id in module_tables and it.id not in binds:
+            it = module_tables[it.id]
         if isinstance(it, ast.Name):
             b = binds.get(it.id, [])
             if len(b) == 1 and isinstance(b[0], ast.Assign) and len(b[0].targets) == 1 and isinstance(b[0].targets[0], ast.Name):
@@ -403,6 +418,19 @@ def _unroll_in(fn, class_tables=None):
             tg = node.target
             names = [tg.id] if isinstance(tg, ast.Name) else ([e.id for e in tg.elts] if isinstance(tg, ast.Tuple) and all(isinstance(e, ast.Name) for e in tg.elts) else None)
             if names is None: return node
+            # a `continue` in tail position of the body ends nothing but the iteration it is in: it is a `pass`
+            def _tail(stmts):
+                if not stmts: return
+                last = stmts[-1]
+                if isinstance(last, ast.Continue): stmts[-1] = ast.copy_location(ast.Pass(), last)
+                elif isinstance(last, ast.If): _tail(last.body); _tail(last.orelse)
+                elif isinstance(last, ast.Try) and not last.finalbody:
+                    for h in last.handlers: _tail(h.body)
+                    _tail(last.orelse if last.orelse else last.body)
+            if rows is not None and not node.orelse:
+                trial = copy.deepcopy(node.body)
+                _tail(trial)
+                if not any(isinstance(x, ast.Continue) for st in trial for x in ast.walk(st)): node.body = trial
             body_nodes = [x for st in node.body for x in ast.walk(st)]
             # "first row that matches": the body is one `if C: ...; break` -> an if / elif chain over the rows
             first_match = len(node.body) == 1 and isinstance(node.body[0], ast.If) and not node.body[0].orelse and \
@@ -470,6 +498,18 @@ def unroll_tables(tree):
                     and isinstance(sts[0].value, (ast.Tuple, ast.List)) and nm not in stored_attrs)
         for st in c.body:
             if isinstance(st, ast.FunctionDef): in_class[id(st)] = tabs
+    # module-level literal tables: bound once at module level, never re-bound (global) in a function
+    mcnt = {}
+    if isinstance(tree, ast.Module):
+        for st in tree.body:
+            if isinstance(st, ast.Assign):
+                for t in st.targets:
+                    for x in ast.walk(t):
+                        if isinstance(x, ast.Name): mcnt.setdefault(x.id, []).append(st)
+    globs = set(nm for g in ast.walk(tree) if isinstance(g, ast.Global) for nm in g.names)
+    mtabs = dict((nm, sts[0].value) for nm, sts in mcnt.items() if len(sts) == 1 and len(sts[0].targets) == 1 and isinstance(sts[0].targets[0], ast.Name)
+                 and isinstance(sts[0].value, (ast.Tuple, ast.List)) and nm not in globs and 0 < len(sts[0].value.elts) <= 8
+                 and all(isinstance(r, (ast.Tuple, ast.List)) for r in sts[0].value.elts))
     for fn in [n for n in ast.walk(tree) if isinstance(n, ast.FunctionDef)]:
         tabs = in_class.get(id(fn)) or {}
         # cheap pre-filter: a loop over a literal, a plain name, or a class-level table
@@ -477,7 +517,7 @@ def unroll_tables(tree):
             if isinstance(it, (ast.Tuple, ast.List)): return True
             if isinstance(it, ast.Name): return True
             return isinstance(it, ast.Attribute) and isinstance(it.value, ast.Name) and it.value.id == 'self' and it.attr in tabs
-        if any(isinstance(x, ast.For) and maybe(x.iter) for x in ast.walk(fn)): _unroll_in(fn, tabs)
+        if any(isinstance(x, ast.For) and maybe(x.iter) for x in ast.walk(fn)): _unroll_in(fn, tabs, mtabs)
     return tree
 
 
@@ -552,7 +592,13 @@ def _alias_locals_in(fn, methods, computed):
                 # a root bound exactly once, before the alias is taken (a looked-up object, a loop variable)
                 rs_ = [x for x in ast.walk(fn) if isinstance(x, ast.Name) and x.id == root and isinstance(x.ctx, (ast.Store, ast.Del))]
                 if root in params or not rs_ or order[id(rs_[0])] > order[id(st)]: continue
-            if any(a in methods or a in computed or a.startswith('__') for a in attrs): continue
+            if any(a in computed or a.startswith('__') for a in attrs): continue
+            if any(a in methods for a in attrs[:-1]): continue
+            if attrs[-1] in methods:
+                # a cached bound method (`write_values = outfile.write_values`): only when every use of the local is a call of it
+                uses_ = [x for x in ast.walk(fn) if isinstance(x, ast.Name) and x.id == t and isinstance(x.ctx, ast.Load)]
+                callees_ = set(id(c.func) for c in ast.walk(fn) if isinstance(c, ast.Call))
+                if not uses_ or any(id(u) not in callees_ for u in uses_): continue
             if any((r2, a) in attr_stores for a in attrs for r2 in (root, None)): continue      # (None: stored through a non-chain expression)
             cands[t] = st
     if not cands: return False
